@@ -44,6 +44,17 @@ theorem core_start {s s' : State} {m i : Nat} (hC : Core s (m + 1)) (hm : m < s.
     · exact hC.hasId x h hxa
     · subst h; exact hytid
 
+theorem newTrackSlot_props (ini : Init) (old : Slot) (pp : Option Nat) :
+    (newTrackSlot ini old pp).active = true ∧ (newTrackSlot ini old pp).ident = ini.ident ∧
+    (newTrackSlot ini old pp).tid.isSome = true ∧
+    ((newTrackSlot ini old pp).stepOk ∨ (newTrackSlot ini old pp).status = .errored) := by
+  unfold newTrackSlot
+  cases pp with
+  | some p => simp [Slot.active, Slot.ident, Init.ident, Slot.stepOk]
+  | none =>
+    simp only
+    split <;> simp [Slot.active, Slot.ident, Init.ident, Slot.stepOk]
+
 /-- loop invariant of the initialisation loop, `TrackOrder::none` -/
 structure ITInv (cfg : Cfg) (s0 : State) (k : Nat) (s : State) : Prop where
   lens : Lens cfg s
@@ -96,13 +107,18 @@ theorem it_loop_none {cfg : Cfg} {s0 : State} (hord : cfg.order = .none) {n : Na
           { sk with slots := sk.slots.set (s0.vacancies[s0.c.numVacancies - k - 1]) y,
                     started := sk.started ++
                       [(sk.initializers[s0.c.numInitializers - k - 1]).ident] } := by
+      have hgi : initGetIdx sk n k s0.c.numInitializers = s0.c.numInitializers - k - 1 := by
+        simp [initGetIdx, hso, indexBefore]
+      have hvx : ∀ ini, initVacIdx sk s0.c n k ini = s0.c.numVacancies - k - 1 := by
+        intro ini; simp [initVacIdx, hso, indexBefore]
       unfold initTrack
-      simp only [hso, indexBefore, e1, hslot, getD_getElem _ _ _ hm]
-      split
-      · refine ⟨_, ?_, ?_, ?_, ?_, rfl⟩ <;> simp [Slot.active, Slot.ident, Init.ident, Slot.stepOk]
-      · split
-        · refine ⟨_, ?_, ?_, ?_, ?_, rfl⟩ <;> simp [Slot.active, Slot.ident, Init.ident, Slot.stepOk]
-        · refine ⟨_, ?_, ?_, ?_, ?_, rfl⟩ <;> simp [Slot.active, Slot.ident, Init.ident, Slot.stepOk]
+      simp only [hgi, hvx, e1, hslot, getD_getElem _ _ _ hm]
+      obtain ⟨q1, q2, q3, q4⟩ := newTrackSlot_props (sk.initializers[s0.c.numInitializers - k - 1])
+        (sk.slots.getD (s0.vacancies[s0.c.numVacancies - k - 1]) Slot.empty)
+        (Option.map (fun p => (sk.slots.getD p Slot.empty).pos)
+          (if ¬ k < s0.c.numSecondaries then none
+           else sk.parents.getD (initGetIdx sk n k sk.parents.length) none))
+      exact ⟨_, q1, q2, q3, q4, rfl⟩
     obtain ⟨y, hy1, hy2, hy3, hy4, hyeq⟩ := hstep
     rw [hyeq]
     have hcore := core_start (s := sk) (s' := { sk with
